@@ -1,5 +1,7 @@
 import CueVerif.Driver.Proto
 import CueVerif.Model.Quote
+import CueVerif.Model.NumLit
+import CueVerif.Model.Ident
 namespace CueVerif.Driver.C09
 open CueVerif CueVerif.Driver
 
@@ -40,6 +42,30 @@ def resStr : Except Quote.Err Quote.Bytes → String
   | .ok b => "ok " ++ hex b
   | .error e => "err " ++ errStr e
 
+/-- the code points `for _, r := range s` yields (U+FFFD for every invalid byte) -/
+def runesOf : Nat → Quote.Bytes → List Nat
+  | 0, _ => []
+  | _, [] => []
+  | fuel + 1, b :: rest =>
+    let rw := Quote.decodeRune (b :: rest)
+    rw.1 :: runesOf fuel (rest.drop (rw.2 - 1))
+
+def kindStr : Option NumLit.Kind → String
+  | some .int => "int" | some .float => "float" | none => "no"
+
+/-- `cp:flags,…` (bit 0 = unicode.IsLetter, bit 1 = unicode.IsDigit) for the runes ≥ 0x80 -/
+def parseClasses (w : String) : Option ((Nat → Bool) × (Nat → Bool)) :=
+  if w == "-" then some (fun _ => false, fun _ => false) else
+  let items := (w.splitOn ",").mapM fun it =>
+    match it.splitOn ":" with
+    | [a, b] => do let x ← a.toNat?; let y ← b.toNat?; pure (x, y)
+    | _ => none
+  items.map fun tbl =>
+    let look (r : Nat) : Nat := match tbl.find? (fun e => e.1 == r) with
+      | some e => e.2
+      | none => 0
+    (fun r => look r % 2 == 1, fun r => look r / 2 % 2 == 1)
+
 /-- protocol handler for C09: words of one op line (after the property id) → answer -/
 def handle (ws : List String) : String :=
   match ws with
@@ -55,6 +81,16 @@ def handle (ws : List String) : String :=
     match unhex s with
     | some b => resStr (Quote.unquote b)
     | none => "bad-op"
+  | ["num", s] =>
+    match unhex s with
+    | some b => kindStr (NumLit.scannerAccepts b) ++ " " ++ kindStr (NumLit.parseNum b)
+    | none => "bad-op"
+  | ["ident", s, cls] =>
+    match unhex s, parseClasses cls with
+    | some b, some (lU, dU) =>
+      let cps := runesOf (b.length + 1) b
+      boolStr (Ident.scanIdentClean lU dU cps) ++ " " ++ boolStr (Ident.isValidIdent lU dU cps)
+    | _, _ => "bad-op"
   | ["decode", s] =>
     -- utf8.DecodeRuneInString / DecodeLastRuneInString of the model's own decoder
     match unhex s with
